@@ -17,12 +17,13 @@ from ..engine import describe_exc
 ID = "C10"
 RUNS = {"quick": 32000, "thorough": 200000, "thorough_s": 300}
 CHUNK = 200
+RUN_TIMEOUT = 1200.0
 RULE = ("seeded simple loop-free graphs with 1..9 vertices (thorough ..11) incl. isolated vertices: G(n,p), planted "
         "overlapping cliques, complete graphs, triangle chains; arbitrary non-negative labels and edge insertion order; "
         "max_size in {0,2,3,4,5}; 1-3 consecutive covers on the same graph object, in 40% of runs with edges moved in between "
         "(vertex and edge counts unchanged); shuffle schedules uniform/identity/reverse/"
         "rotation/adjacent swaps; aborts mid-shuffle then a new cover; non-trivial = graph has >= 2 edges; distinct = "
-        "distinct execution digests")
+        "distinct execution digests; thorough tier only: one cycle of 6e5 vertices (more than a million trivial cliques) per invocation")
 ASSUMPTIONS = ["oracle enumerates all cliques by brute force over vertex subsets grown from adjacency (independent of "
                "nx.enumerate_all_cliques)", "vertex labels are non-negative ints (label parsing splits on '-')"]
 REAL = ["gcmpy.covers.mpcc.MPCC", "networkx enumerate_all_cliques (inside the library)", "CPython random.shuffle"]
@@ -69,6 +70,12 @@ def gen_graph(prng, big):
 
 
 def generate(prng, tier, index):
+    if tier == "thorough" and index == 0:
+        # scale (thorough tier only, ~1 minute): more than a million cliques in total (vertices + edges), all of them
+        # trivial - anything that caps, batches or truncates the enumeration shows here and nowhere else
+        n = prng.choice((600000, 650000))
+        return {"variant": "clean", "nodes": None, "edges": None, "cycle": n, "limits": [0], "policy": {"shuffle": ["uniform"]},
+                "attrs": False, "scale": True}
     nodes, es = gen_graph(prng, tier == "thorough")
     variant = "faults" if index % 5 == 4 else "clean"
     ncalls = prng.choice((1, 1, 2))
@@ -188,7 +195,44 @@ def verify(sc, ctx, G, R, limit, tag, edges=None):
         ctx.probe("cover_has_clique_of_3_or_more")
 
 
+def execute_scale(sc, ctx):
+    P = "C10"
+    n = sc["cycle"]
+    G = nx.cycle_graph(n)
+    src = ctx.source("order", sc.get("policy"))
+    st, R = ctx.call(src, MPCC, G, 0, budget=None, label="MPCC[scale]")
+    if st != "ok":
+        ctx.violate(f"{P}.raised", f"MPCC on a {n}-cycle: {st} {describe_exc(R) if st == 'raised' else ''}")
+        return
+    ctx.probe("scale_run_edges", n)
+    ctx.check(f"{P}.same"); ctx.check(f"{P}.labelled"); ctx.check(f"{P}.complete"); ctx.check(f"{P}.ids")
+    if R.number_of_nodes() != n or R.number_of_edges() != n:
+        ctx.violate(f"{P}.same", f"cover of a {n}-cycle has {R.number_of_nodes()} vertices and {R.number_of_edges()} edges")
+        return
+    ids = set()
+    unl = 0
+    for u, v, d in R.edges(data=True):
+        lab = d.get("clique")
+        if not isinstance(lab, str):
+            unl += 1
+            continue
+        size, members, cid = parse(lab)
+        if size != 2 or set(members) != {u, v}:
+            ctx.violate(f"{P}.complete", f"edge {sorted((u, v))} of the cycle carries label {lab!r}")
+            return
+        if cid in ids:
+            ctx.violate(f"{P}.ids", f"id {cid} used twice on the {n}-cycle")
+            return
+        ids.add(cid)
+    if unl:
+        ctx.violate(f"{P}.labelled", f"{unl} of the {n} edges of a {n}-cycle carry no cover label")
+    ctx.nedges = n
+    ctx.result(n, unl)
+
+
 def execute(sc, ctx):
+    if sc.get("scale"):
+        return execute_scale(sc, ctx)
     P = "C10"
     G = nx.Graph()
     G.add_nodes_from(sc["nodes"])
@@ -233,6 +277,8 @@ def nontrivial(sc, ctx):
 
 
 def shrink(sc):
+    if sc.get("scale"):
+        return
     if sc["variant"] == "faults":
         yield dict(sc, variant="clean")
     if len(sc["limits"]) > 1:
